@@ -78,6 +78,48 @@ NEEDS = {
     "C13r-1": ("C13", "second round: nested folds exactly one of which is below an @optional (same mechanism as C13-1, written independently)"),
     "C13r-2": ("C13", "second round: @optional -> @fold -> nested @fold with an output, and a vertex where the optional edge does not exist (nested fold's output names missing)"),
     "C13r-3": ("C13", "second round: a @fold with outputs evaluated before a @recurse edge in the same component, data where a vertex has >= 2 neighbours along the recursed edge (folded values dropped for sibling contexts)"),
+    "C10r-1": ("C10", "second round: a @fold whose contents fail to compile, a tag defined in an enclosing component, and a later fold (sibling or nested) filtering on that outer tag (same mechanism as C10-2, written independently)"),
+    "C10r-2": ("C10", "second round: an edge with @fold AND invalid edge parameters, nested inside another edge's scope (depth >= 2): end_nested_scope skipped"),
+    "C10r-3": ("C10", "second round: a fragment spread directly inside an inline fragment (`... on T { ...frag }`), with no named fragment definitions in the document: unreachable!()"),
+    "C12r-1": ("C12", "second round: an empty list (top level or nested) where the variable's implied type is not a list at that depth (same mechanism as C12-2, written independently)"),
+    "C12r-2": ("C12", "second round: one variable used on a nullable Int property filter in the same or an enclosing scope AND in a fold-count filter, argument null (narrowing skipped when the wider use comes first)"),
+    "C12r-3": ("C12", "second round: `contains` / `not_contains` with a variable on a list property whose outer and element nullability differ (`[T!]` accepts null, `[T]!` refuses it)"),
+    "C15r-1": ("C15", "second round: a @fold whose count has an upper-bound filter, a vertex with more folded elements than the bound, and an adapter whose neighbour iterators report an exact size_hint (recording takes a shortcut the lazy reader cannot)"),
+    "C15r-2": ("C15", "second round: @recurse inside an @optional that is missing for some vertex, and a real serialise / deserialise step of the trace (None markers dropped from suspended_vertices)"),
+    "C15r-3": ("C15", "second round: a vertex with zero neighbours along a @fold-ed edge, with something inside the fold that needs an adapter call at set-up time, or a `>= 0` count filter, or the fold inside a missing @optional"),
+    "C19r-1": ("C19", "second round: interface chain where the middle interface narrows a field and a leaf widens it again, wider interface listed first (same mechanism as C19-2, written independently)"),
+    "C19r-2": ("C19", "second round: >= 2 types implementing `Sub` (which implements `Super`), a well-formed implementer sorting first and one lacking `Super` sorting later (per-interface memoisation)"),
+    "C19r-3": ("C19", "second round: a list-typed parameter whose default is a list literal containing an input-object literal (`[1, {min: 2}, 3]`): unconvertible elements silently dropped"),
+    "C21r-1": ("C21", "second round: a nullable parameter with a non-null default, omitted in the query, on root / plain / folded / recursed edges (same mechanism as C01-1)"),
+    "C21r-2": ("C21", "second round: @recurse depth >= 2 over an edge needing an implicit coercion plus an explicit `... on Sub` on the recursed edge's destination (same mechanism as C21-1, written independently)"),
+    "C21r-3": ("C21", "second round: a coercion and a @filter on the same vertex, that vertex being the query root or a @fold root, data containing other subtypes (filters run before the coercion)"),
+    "C22r-1": ("C22", "second round: same early-exit defect as C22-1, written independently"),
+    "C22r-2": ("C22", "second round: same defect as C22-2 (nested fold's count output not seen by the eligibility check), written independently"),
+    "C22r-3": ("C22", "second round: an upper-bound count filter (`<`, `<=`) with a NON-POSITIVE variable and an empty fold in the data (post-filter skipped as already enforced)"),
+    "C23r-1": ("C23", "second round: `not_regex` with a TAG operand whose value is not a valid regular expression, and a non-null left-hand string (a filter and its negation no longer partition)"),
+    "C23r-2": ("C23", "second round: ensure_suspended not idempotent (same mechanism as C23-2 / C01r-3, written independently)"),
+    "C23r-3": ("C23", "second round: an explicit `null` argument for a nullable parameter that has a non-null default (replaced by the default), and an adapter that distinguishes null from the default"),
+    "C03r-1": ("C03", "second round: run-based regex caching for `regex` with a %tag operand on the top-level stream (same mechanism as C03-1, written independently)"),
+    "C03r-2": ("C03", "second round: an adapter that does not read ahead but calls dynamically_required_property(..).resolve(..) inside resolve_neighbors; the pull count between interpret_ir() returning and the first next() (a peek() in the hint code primes the pipeline)"),
+    "C03r-3": ("C03", "second round: @optional { ... @recurse ... } on the top-level stream with the optional edge missing for some starting vertices (same mechanism as C03-2, written independently)"),
+    "C14r-1": ("C14", "second round: an invalid schema whose circular `implements` relationship leaves entries with different unresolved sets (ring of >= 3 types, two disjoint cycles): reported cycle picked in hash order"),
+    "C14r-2": ("C14", "second round: a multi-step sequence: compile Q against schema S1, drop S1, create a DIFFERENT schema S2 at the same address, compile the same text Q (process-wide cache keyed by the schema's address)"),
+    "C14r-3": ("C14", "second round: `regex` / `not_regex` with a %tag operand, a tagged value that is an invalid regex at run time, and an earlier valid pattern on the same thread that happens to match (thread-local last-regex cache survives)"),
+    "C16r-1": ("C16", "second round: a type with exactly 30 list levels going through serde deserialisation (guard written `>=` instead of `>`)"),
+    "C16r-2": ("C16", "second round: FieldValue::Enum turned into TransparentValue::String on the way IN (same visible effect as C16-1, other direction)"),
+    "C16r-3": ("C16", "second round: a root / regular / folded edge with >= 1 parameter all of whose values are null: `parameters` dropped from the serialised IR and read back empty"),
+    "C18r-1": ("C18", "second round: Uint64 near u64::MAX into a signed narrow field (same mechanism as C18-1, written independently)"),
+    "C18r-2": ("C18", "second round: tuple / fixed-size array target fed a longer list (same effect as C18-2 through two cooperating sites)"),
+    "C18r-3": ("C18", "second round: a Float64 of magnitude >= 2^63, or exactly -0.0, decoded into f64 / i64 / u64 / i128 / u128 (whole floats announced to the visitor as i64, saturating cast)"),
+    "C20r-1": ("C20", "second round: a mandatory `implementer` traversal with a static `=` / single-candidate `one_of` filter on the implementer's name equal to a source type's own name (fast path drops the self-exclusion)"),
+    "C20r-2": ("C20", "second round: a nullable parameter with an explicit non-null default (same mechanism as C20-1, written independently)"),
+    "C20r-3": ("C20", "second round: the same field name used as a property on one type and as an edge on another, unrelated type (classification precomputed by field name only)"),
+    "C25r-1": ("C25", "second round: a type implementing >= 2 interfaces and a fault on a coercion from a non-last interface (coercion checks collapsed by target type)"),
+    "C25r-2": ("C25", "second round: an edge with a nullable parameter whose default is null (same mechanism as C25-1, written independently)"),
+    "C25r-3": ("C25", "second round: an edge-only or marker type and a fault on its __typename (same effect as C25-2 through the meta-query)"),
+    "C26r-1": ("C26", "second round: one vertex type with both an edge that takes parameters and an edge that takes none (`_parameters` renamed when ANY edge has no parameters)"),
+    "C26r-2": ("C26", "second round: an edge on a vertex type with a list parameter whose elements are nullable scalars (same mechanism as C26-1, written independently)"),
+    "C26r-3": ("C26", "second round: an interface that declares at least one edge (no Vertex variant and no as_<iface>() for interfaces)"),
     "C22-1": ("C22", "a lower-bound count filter (>= / >) together with a != / not_one_of filter on the same fold count, both with variables, nothing observing the fold, fold larger than the bound"),
     "C22-2": ("C22", "an outer fold with only lower-bound count filters whose only observed content is a nested fold's count @output, outer fold larger than the bound"),
 }
